@@ -111,7 +111,7 @@ CLAIMS = {
           "(R2) the compressed flag stored in the index row is the very value that selects the writer's compressing branch (pack_all_loose, direct path, _write_data_to_packfile guards), and in repack it is decided for every object from that object's own stored form on every path, with a complete transfer branch table, and every path that stages a row ran exactly one transfer loop in the form its tests select (raw copy iff flags equal / destination uncompressed; deflate + flush iff destination compressed); "
           "(R3) estimate_compression restores the stream position on every path (typestate) and should_compress touches the stream nowhere else; (R4) size = bytes read by the writer / copied from the row, length = tell() difference around exactly this object's writes on every path incl. exception paths (range machine shared with C03.R1), totals map SUM(size)/SUM(length) to the right labels; (R5) decompresser rewind resets all state; (R6) compress forwarded unchanged by every wrapper; the read side: the decompresser wraps the reader iff the truthiness of the row's flag (never an identity test). "
           "Does NOT decide that inflate(deflate(x)) == x nor the AUTO heuristic's numeric choice."),
-    note="zlib trusted. Also hosts the rule module of C03 (index/pack agreement at every step of the writers and of the repack hand-over).",
+    note="zlib trusted. Also hosts the rule modules of C03 (index/pack agreement at every step of the writers and of the repack hand-over) and C07 (transparency includes the stream over a compressed object: the decompresser's seek/read rules).",
     technique="enum/branch table check + def-use agreement + position-restore typestate", ref="5/C10"),
  'C11': dict(
     text=("Decides: (R1) every unlink and the DELETE of delete_objects are keyed by elements of the request parameter (duplicates by the exact prefix '<key>.'), the chunk loop feeds every chunk (<= 999) to both SELECT and DELETE and has no early exit; "
